@@ -45,12 +45,10 @@ func TestC25ConcurrentReads(t *testing.T) {
 	rapid.Check(t, func(t *rapid.T) {
 		wo := sim.DefaultOpts()
 		wo.MaxPools, wo.MaxTokens = 4, 4
-		// known finding c25-sequential-read-perturbs (a quote on the live state changes which
-		// limit orders later trades fill, even without concurrency) is excluded by construction:
-		// these histories contain no limit orders, so the quotes have nothing to load
-		wo.Orders = false
+		// limit orders are part of these histories again since the repair of
+		// c25-sequential-read-perturbs (the quotes load and sort the pairs' order books)
 		prof := swapProfile()
-		prof["addOrder"], prof["removeOrder"] = 0, 0
+		prof["addOrder"], prof["removeOrder"] = 10, 4
 		prof["createPool"], prof["createToken"], prof["delegate"], prof["unbond"], prof["declare"] = 30, 10, 8, 6, 4
 		h := newHistory(t, wo, prof, sim.BlockOpts{MaxTxs: 10, Absences: true, Evidence: true})
 		n, r, w := h.N, h.R, h.W
@@ -188,43 +186,21 @@ func TestC25SequentialReads(t *testing.T) {
 
 const c25SigSequential = "c25-sequential-read-perturbs"
 
-// TestC25_KF_SequentialReads searches for the known finding c25-sequential-read-perturbs
-// with the same generator and records whether it still reproduces; it never fails (the
-// failing variant above is kept for replaying the saved minimal history).
-func TestC25_KF_SequentialReads(t *testing.T) {
-	reproduced := false
-	// first replay the saved minimal history (rapid runs the named fail file before anything else)
+// TestC25_Reg_SequentialReads replays the saved minimal history of the repaired defect
+// c25-sequential-read-perturbs (a read-only quote between two transactions changed which limit
+// orders a later trade filled). It fails if the divergence returns.
+func TestC25_Reg_SequentialReads(t *testing.T) {
 	root := os.Getenv("VERIF_ROOT")
 	if root == "" {
 		root = "/verif"
 	}
-	if known := root + "/replays/C25/known/TestC25SequentialReads-20260922030755-29594.fail"; fileExists(known) {
-		_ = flag.Set("rapid.failfile", known)
-		rapid.Check(t, func(t *rapid.T) {
-			if reproduced {
-				return
-			}
-			c25Sequential(t, func(string) { reproduced = true })
-		})
-		_ = flag.Set("rapid.failfile", "")
-		if reproduced {
-			sim.S.Label("C25/known-finding-replayed-from-saved-history")
-		}
+	known := root + "/replays/C25/known/TestC25SequentialReads-20260922030755-29594.fail"
+	if !fileExists(known) {
+		t.Skip("saved history not found")
 	}
-	// otherwise search for it: the finding needs a few hundred histories: repeat the configured number of cases up to
-	// ten times, shifting the random stream by a few throw-away draws per round
-	for round := 0; round < 10 && !reproduced; round++ {
-		rapid.Check(t, func(t *rapid.T) {
-			if reproduced {
-				return
-			}
-			for i := 0; i < round; i++ {
-				rapid.Bool().Draw(t, "shift")
-			}
-			c25Sequential(t, func(string) { reproduced = true })
-		})
-	}
-	sim.S.KnownFinding(c25SigSequential, reproduced)
+	_ = flag.Set("rapid.failfile", known)
+	defer func() { _ = flag.Set("rapid.failfile", "") }()
+	rapid.Check(t, func(t *rapid.T) { c25Sequential(t, nil) })
 }
 
 func c25Sequential(t *rapid.T, onDivergence func(string)) {
@@ -288,7 +264,7 @@ func c25Sequential(t *rapid.T, onDivergence func(string)) {
 		}
 		sim.S.LabelN("C25/sequential-quotes", reads)
 		sim.S.LabelN("C25/sequential/orders-added", r.KindsOK["addOrder"])
-		sim.S.Case("TestC25_KF_SequentialReads", reads > 0 && r.KindsOK["addOrder"] > 0, sim.HashStrings(r.Steps), func() interface{} { return sim.HistorySample(r.Steps, 20) })
+		sim.S.Case("TestC25SequentialReads", reads > 0 && r.KindsOK["addOrder"] > 0, sim.HashStrings(r.Steps), func() interface{} { return sim.HistorySample(r.Steps, 20) })
 	}
 }
 
